@@ -1,7 +1,443 @@
-From Coq Require Import ZArith List Bool Lia.
+(* C04 lemmas: the model's duration of a (sub-)circuit is the span (latest end - earliest start) of everything it contains. *)
+From Coq Require Import ZArith List Bool Lia ZifyBool Arith Permutation.
 Import ListNotations.
-From QCE Require Import Base.Prelude Core.Model.
+From QCE Require Import Base.Prelude Core.Model Core.Run Core.BfsProofs Core.BfsWf Core.TimesProofs Core.TimesListing Core.TimesWf C04.Run.
+From Gen Require Import Ident Classes.
 Open Scope Z_scope.
 
 Lemma empty_duration env : comp_duration env [] = 0.
 Proof. reflexivity. Qed.
+
+(* ------------------------------------------------------------------ minimum / maximum of a list *)
+Lemma fold_min_spec l : forall x, let m := fold_left Z.min l x in m <= x /\ (forall y, In y l -> m <= y) /\ (m = x \/ In m l).
+Proof.
+  induction l as [|y l IH]; intros x; simpl.
+  - split; [lia|]. split; [intros y []|]. left; reflexivity.
+  - destruct (IH (Z.min x y)) as (H1 & H2 & H3). split; [lia|]. split.
+    + intros z [<- | Hz]; [lia | apply H2; exact Hz].
+    + destruct H3 as [H3 | H3]; [|right; right; exact H3]. destruct (Z.min_spec x y) as [[_ E] | [_ E]]; [left; lia | right; left; lia].
+Qed.
+
+Lemma fold_max_spec l : forall x, let m := fold_left Z.max l x in x <= m /\ (forall y, In y l -> y <= m) /\ (m = x \/ In m l).
+Proof.
+  induction l as [|y l IH]; intros x; simpl.
+  - split; [lia|]. split; [intros y []|]. left; reflexivity.
+  - destruct (IH (Z.max x y)) as (H1 & H2 & H3). split; [lia|]. split.
+    + intros z [<- | Hz]; [lia | apply H2; exact Hz].
+    + destruct H3 as [H3 | H3]; [|right; right; exact H3]. destruct (Z.max_spec x y) as [[_ E] | [_ E]]; [right; left; lia | left; lia].
+Qed.
+
+Lemma fold_min_unique l x m : m <= x -> (forall y, In y l -> m <= y) -> (m = x \/ In m l) -> fold_left Z.min l x = m.
+Proof.
+  intros H1 H2 H3. destruct (fold_min_spec l x) as (G1 & G2 & G3). simpl in *.
+  destruct H3 as [-> | H3]; destruct G3 as [G3 | G3]; try lia.
+  - specialize (H2 _ G3). lia.
+  - specialize (G2 _ H3). lia.
+  - specialize (G2 _ H3). specialize (H2 _ G3). lia.
+Qed.
+
+Lemma fold_max_unique l x m : x <= m -> (forall y, In y l -> y <= m) -> (m = x \/ In m l) -> fold_left Z.max l x = m.
+Proof.
+  intros H1 H2 H3. destruct (fold_max_spec l x) as (G1 & G2 & G3). simpl in *.
+  destruct H3 as [-> | H3]; destruct G3 as [G3 | G3]; try lia.
+  - specialize (H2 _ G3). lia.
+  - specialize (G2 _ H3). lia.
+  - specialize (G2 _ H3). specialize (H2 _ G3). lia.
+Qed.
+
+Lemma zmin_list_spec d l : l <> [] -> In (zmin_list d l) l /\ forall y, In y l -> zmin_list d l <= y.
+Proof.
+  destruct l as [|x l]; [congruence|]. intros _. simpl. destruct (fold_min_spec l x) as (G1 & G2 & G3). simpl in *. split.
+  - destruct G3 as [-> | G3]; auto.
+  - intros y [<- | Hy]; [exact G1 | apply G2; exact Hy].
+Qed.
+
+Lemma zmax_list_spec d l : l <> [] -> In (zmax_list d l) l /\ forall y, In y l -> y <= zmax_list d l.
+Proof.
+  destruct l as [|x l]; [congruence|]. intros _. simpl. destruct (fold_max_spec l x) as (G1 & G2 & G3). simpl in *. split.
+  - destruct G3 as [-> | G3]; auto.
+  - intros y [<- | Hy]; [exact G1 | apply G2; exact Hy].
+Qed.
+
+Lemma zmin_list_unique d l m : In m l -> (forall y, In y l -> m <= y) -> zmin_list d l = m.
+Proof.
+  intros H1 H2. assert (N : l <> []) by (destruct l; [destruct H1 | congruence]).
+  destruct (zmin_list_spec d l N) as [G1 G2]. specialize (H2 _ G1). specialize (G2 _ H1). lia.
+Qed.
+
+Lemma zmax_list_unique d l m : In m l -> (forall y, In y l -> y <= m) -> zmax_list d l = m.
+Proof.
+  intros H1 H2. assert (N : l <> []) by (destruct l; [destruct H1 | congruence]).
+  destruct (zmax_list_spec d l N) as [G1 G2]. specialize (H2 _ G1). specialize (G2 _ H1). lia.
+Qed.
+
+Lemma zmin_l_eq d l : zmin_l d l = zmin_list d l.
+Proof. reflexivity. Qed.
+
+Lemma map_neq_nil {A B} (f : A -> B) l : l <> [] -> map f l <> [].
+Proof. destruct l; simpl; congruence. Qed.
+
+(* minimum / maximum under a common shift *)
+Lemma zmin_list_shift d T l : l <> [] -> zmin_list d (map (fun x => x + T) l) = zmin_list d l + T.
+Proof.
+  intros N. destruct (zmin_list_spec d l N) as [G1 G2]. apply zmin_list_unique.
+  - apply in_map_iff. exists (zmin_list d l). auto.
+  - intros y Hy. apply in_map_iff in Hy as (x & <- & Hx). specialize (G2 _ Hx). lia.
+Qed.
+
+Lemma zmax_list_shift d T l : l <> [] -> zmax_list d (map (fun x => x + T) l) = zmax_list d l + T.
+Proof.
+  intros N. destruct (zmax_list_spec d l N) as [G1 G2]. apply zmax_list_unique.
+  - apply in_map_iff. exists (zmax_list d l). auto.
+  - intros y Hy. apply in_map_iff in Hy as (x & <- & Hx). specialize (G2 _ Hx). lia.
+Qed.
+
+(* minimum / maximum over a concatenation of non-empty parts = over the parts' minima / maxima *)
+Lemma zmin_flat_map {A} (L : nat -> list A) (f : A -> Z) (m : nat -> Z) (is : list nat) : is <> [] ->
+  (forall i, In i is -> L i <> [] /\ zmin_list 0 (map f (L i)) = m i) ->
+  zmin_list 0 (map f (flat_map L is)) = zmin_list 0 (map m is).
+Proof.
+  intros N H. destruct (zmin_list_spec 0 (map m is) (map_neq_nil m is N)) as [G1 G2].
+  apply in_map_iff in G1 as (k & Ek & Hk). apply zmin_list_unique.
+  - destruct (H k Hk) as [Nk Mk]. destruct (zmin_list_spec 0 (map f (L k)) (map_neq_nil f _ Nk)) as [K1 _].
+    rewrite Mk, Ek in K1. apply in_map_iff in K1 as (a & Ea & Ha). apply in_map_iff. exists a. split; [exact Ea|].
+    apply in_flat_map. exists k. auto.
+  - intros y Hy. apply in_map_iff in Hy as (a & <- & Ha). apply in_flat_map in Ha as (i & Hi & Ha).
+    destruct (H i Hi) as [Ni Mi]. destruct (zmin_list_spec 0 (map f (L i)) (map_neq_nil f _ Ni)) as [_ K2].
+    specialize (K2 (f a) (in_map f _ _ Ha)). specialize (G2 (m i) (in_map m _ _ Hi)). lia.
+Qed.
+
+Lemma zmax_flat_map {A} (L : nat -> list A) (f : A -> Z) (m : nat -> Z) (is : list nat) : is <> [] ->
+  (forall i, In i is -> L i <> [] /\ zmax_list 0 (map f (L i)) = m i) ->
+  zmax_list 0 (map f (flat_map L is)) = zmax_list 0 (map m is).
+Proof.
+  intros N H. destruct (zmax_list_spec 0 (map m is) (map_neq_nil m is N)) as [G1 G2].
+  apply in_map_iff in G1 as (k & Ek & Hk). apply zmax_list_unique.
+  - destruct (H k Hk) as [Nk Mk]. destruct (zmax_list_spec 0 (map f (L k)) (map_neq_nil f _ Nk)) as [K1 _].
+    rewrite Mk, Ek in K1. apply in_map_iff in K1 as (a & Ea & Ha). apply in_map_iff. exists a. split; [exact Ea|].
+    apply in_flat_map. exists k. auto.
+  - intros y Hy. apply in_map_iff in Hy as (a & <- & Ha). apply in_flat_map in Ha as (i & Hi & Ha).
+    destruct (H i Hi) as [Ni Mi]. destruct (zmax_list_spec 0 (map f (L i)) (map_neq_nil f _ Ni)) as [_ K2].
+    specialize (K2 (f a) (in_map f _ _ Ha)). specialize (G2 (m i) (in_map m _ _ Hi)). lia.
+Qed.
+
+Lemma flat_map_neq_nil {A B} (L : A -> list B) (is : list A) i : In i is -> L i <> [] -> flat_map L is <> [].
+Proof.
+  intros Hi N E. destruct (L i) as [|b t] eqn:Eb; [congruence|].
+  assert (In b (flat_map L is)) as Hb by (apply in_flat_map; exists i; rewrite Eb; simpl; auto).
+  rewrite E in Hb. destruct Hb.
+Qed.
+
+Lemma zmin_list_perm d l l' : Permutation l l' -> zmin_list d l = zmin_list d l'.
+Proof.
+  intros P. destruct l as [|x l].
+  - apply Permutation_nil in P. now subst.
+  - assert (N : x :: l <> []) by congruence. destruct (zmin_list_spec d _ N) as [G1 G2]. symmetry. apply zmin_list_unique.
+    + eapply Permutation_in; [exact P | exact G1].
+    + intros y Hy. apply G2. eapply Permutation_in; [apply Permutation_sym; exact P | exact Hy].
+Qed.
+
+Lemma zmax_list_perm d l l' : Permutation l l' -> zmax_list d l = zmax_list d l'.
+Proof.
+  intros P. destruct l as [|x l].
+  - apply Permutation_nil in P. now subst.
+  - assert (N : x :: l <> []) by congruence. destruct (zmax_list_spec d _ N) as [G1 G2]. symmetry. apply zmax_list_unique.
+    + eapply Permutation_in; [exact P | exact G1].
+    + intros y Hy. apply G2. eapply Permutation_in; [apply Permutation_sym; exact P | exact Hy].
+Qed.
+
+Lemma map_nth_seq {A} (l : list A) d : map (fun i => nth i l d) (seq 0 (length l)) = l.
+Proof.
+  apply (nth_ext _ _ d d); [now rewrite map_length, seq_length|]. intros i Hi. rewrite map_length, seq_length in Hi.
+  rewrite (nth_indep _ d (nth (length l) l d)) by (now rewrite map_length, seq_length).
+  rewrite (map_nth (fun i => nth i l d) (seq 0 (length l)) (length l) i). now rewrite seq_nth.
+Qed.
+
+(* ------------------------------------------------------------------ the extent fold *)
+Definition ext_lo (tm exts : list (Z * Z)) (i : nat) : Z := fst (nth i tm (0, 0)) + fst (nth i exts (0, 0)).
+Definition ext_hi (tm exts : list (Z * Z)) (i : nat) : Z := fst (nth i tm (0, 0)) + snd (nth i exts (0, 0)).
+
+Lemma extent_fold tm exts rel0 is : forall acc,
+  fold_left (fun (acc : Z * Z) (i : nat) =>
+               let s := fst (nth i tm (0, 0)) - rel0 in
+               let '(lo, hi) := nth i exts (0, 0) in
+               (Z.min (fst acc) (s + lo), Z.max (snd acc) (s + hi))) is acc
+  = (fold_left Z.min (map (fun i => ext_lo tm exts i - rel0) is) (fst acc),
+     fold_left Z.max (map (fun i => ext_hi tm exts i - rel0) is) (snd acc)).
+Proof.
+  induction is as [|i is IH]; intros [a b]; simpl; [reflexivity|]. rewrite IH. unfold ext_lo, ext_hi.
+  destruct (nth i exts (0, 0)) as [lo hi]. simpl. f_equal; f_equal; lia.
+Qed.
+
+Definition rel0_of (ps : list (option nat)) (tm : list (Z * Z)) : Z :=
+  zmin_list 0 (map (fun i => fst (nth i tm (0, 0))) (depth1 ps)).
+
+Lemma extent_of_nodes_eq ps tm exts : ps <> [] ->
+  extent_of_nodes ps tm exts =
+    (fold_left Z.min (map (fun i => ext_lo tm exts i - rel0_of ps tm) (bfs ps)) 0,
+     fold_left Z.max (map (fun i => ext_hi tm exts i - rel0_of ps tm) (bfs ps)) 0).
+Proof. intros N. unfold extent_of_nodes. destruct ps as [|q ps]; [congruence|]. apply extent_fold. Qed.
+
+(* the extent always contains the reference instant *)
+Lemma extent_of_nodes_sign ps tm exts : fst (extent_of_nodes ps tm exts) <= 0 <= snd (extent_of_nodes ps tm exts).
+Proof.
+  destruct ps as [|q ps]; [simpl; lia|]. rewrite extent_of_nodes_eq by congruence. simpl fst. simpl snd.
+  destruct (fold_min_spec (map (fun i => ext_lo tm exts i - rel0_of (q :: ps) tm) (bfs (q :: ps))) 0) as [H _].
+  destruct (fold_max_spec (map (fun i => ext_hi tm exts i - rel0_of (q :: ps) tm) (bfs (q :: ps))) 0) as [G _].
+  simpl in *. lia.
+Qed.
+
+Lemma ext_of_sign env o : (forall l, o = OLeaf l -> 0 <= resolve env (l_dur l)) -> fst (ext_of env o) <= 0 <= snd (ext_of env o).
+Proof.
+  destruct o as [l | r ns]; intros H.
+  - simpl. specialize (H l eq_refl). lia.
+  - rewrite ext_of_unfold. apply extent_of_nodes_sign.
+Qed.
+
+(* if some listed node's own extent contains the reference instant (a first operation does), the extent is the hull of the
+   listed nodes' extents, expressed relative to the reference instant *)
+Lemma extent_span ps tm exts j : ps <> [] -> In j (bfs ps) ->
+  ext_lo tm exts j <= rel0_of ps tm <= ext_hi tm exts j ->
+  extent_of_nodes ps tm exts =
+    (zmin_list 0 (map (ext_lo tm exts) (bfs ps)) - rel0_of ps tm, zmax_list 0 (map (ext_hi tm exts) (bfs ps)) - rel0_of ps tm).
+Proof.
+  intros N Hj [Hlo Hhi]. rewrite extent_of_nodes_eq by exact N.
+  assert (NB : bfs ps <> []) by (intros E; rewrite E in Hj; destruct Hj).
+  destruct (zmin_list_spec 0 (map (ext_lo tm exts) (bfs ps)) (map_neq_nil _ _ NB)) as [A1 A2].
+  destruct (zmax_list_spec 0 (map (ext_hi tm exts) (bfs ps)) (map_neq_nil _ _ NB)) as [B1 B2].
+  f_equal.
+  - apply fold_min_unique.
+    + specialize (A2 _ (in_map (ext_lo tm exts) _ _ Hj)). lia.
+    + intros y Hy. apply in_map_iff in Hy as (i & <- & Hi). specialize (A2 _ (in_map (ext_lo tm exts) _ _ Hi)). lia.
+    + right. apply in_map_iff in A1 as (k & Ek & Hk). apply in_map_iff. exists k. split; [lia | exact Hk].
+  - apply fold_max_unique.
+    + specialize (B2 _ (in_map (ext_hi tm exts) _ _ Hj)). lia.
+    + intros y Hy. apply in_map_iff in Hy as (i & <- & Hi). specialize (B2 _ (in_map (ext_hi tm exts) _ _ Hi)). lia.
+    + right. apply in_map_iff in B1 as (k & Ek & Hk). apply in_map_iff. exists k. split; [lia | exact Hk].
+Qed.
+
+(* the first layer is listed *)
+Lemma depth1_in_bfs ps j : In j (depth1 ps) -> In j (bfs ps).
+Proof.
+  intros Hj. unfold bfs, bfs_fuel, depth1 in *. pose proof max_layers_eq as M.
+  destruct max_layers as [|f]; [simpl in M; lia|]. cbn [layers].
+  destruct (children ps None) as [|x t] eqn:E; [destruct Hj|]. cbn [concat]. apply in_or_app. left. exact Hj.
+Qed.
+
+Lemma bfs_nonempty_depth1 ps : bfs ps <> [] -> depth1 ps <> [].
+Proof.
+  intros N E. apply N. unfold bfs, bfs_fuel, depth1 in *. rewrite E. destruct max_layers; reflexivity.
+Qed.
+
+(* the reference instant is the start of some first-layer node *)
+Lemma rel0_of_spec ps tm : depth1 ps <> [] ->
+  exists j, In j (depth1 ps) /\ rel0_of ps tm = fst (nth j tm (0, 0)).
+Proof.
+  intros N. destruct (zmin_list_spec 0 (map (fun i => fst (nth i tm (0, 0))) (depth1 ps)) (map_neq_nil _ _ N)) as [H _].
+  apply in_map_iff in H as (j & Ej & Hj). exists j. split; [exact Hj | symmetry; exact Ej].
+Qed.
+
+(* ------------------------------------------------------------------ C04, flat graphs *)
+Lemma leaf_exts env ns : (forall n, In n ns -> is_comp (n_op n) = false) ->
+  forall i, (i < length ns)%nat ->
+    nth i (map (fun n => ext_of env (n_op n)) ns) (0, 0) = (0, snd (nth i (node_times env None ns) (0, 0)) - fst (nth i (node_times env None ns) (0, 0))) /\
+    0 = fst (nth i (map (fun n => ext_of env (n_op n)) ns) (0, 0)).
+Proof.
+  intros L i Hi. destruct (nth_error ns i) as [n|] eqn:En; [|apply nth_error_None in En; lia].
+  rewrite (nth_indep _ (0, 0) (ext_of env (n_op n))) by (now rewrite map_length).
+  rewrite (map_nth (fun n => ext_of env (n_op n)) ns n i), (nth_error_nth _ _ n En).
+  rewrite node_times_eq, (times_end None _ i _ _ (node_hs_nth env ns i n En)).
+  specialize (L n (nth_error_In _ _ En)). destruct (n_op n) as [l | r sub]; [|discriminate]. unfold dur_of. simpl.
+  split; [f_equal; lia | reflexivity].
+Qed.
+
+Theorem flat_span env ns : ns <> [] -> (forall n, In n ns -> is_comp (n_op n) = false) ->
+  (forall n l, In n ns -> n_op n = OLeaf l -> 0 <= resolve env (l_dur l)) ->
+  Permutation (bfs (parents ns)) (seq 0 (length ns)) ->
+  comp_duration env ns = zmax_list 0 (map snd (node_times env None ns)) - zmin_list 0 (map fst (node_times env None ns)).
+Proof.
+  intros N L D P. unfold comp_duration, dur_of. rewrite ext_of_unfold.
+  set (tm := node_times env None ns). set (exts := map (fun n => ext_of env (n_op n)) ns). set (ps := parents ns). fold ps in P.
+  assert (Nps : ps <> []) by (unfold ps, parents; apply map_neq_nil; exact N).
+  assert (Nb : bfs ps <> []).
+  { intros E. rewrite E in P. apply Permutation_nil in P. destruct ns; [congruence | discriminate]. }
+  destruct (rel0_of_spec ps tm (bfs_nonempty_depth1 ps Nb)) as (j & Hj & Ej).
+  pose proof (depth1_in_bfs ps j Hj) as Hjb.
+  assert (Hjl : (j < length ns)%nat) by (apply bfs_lt_length in Hjb; unfold ps in Hjb; now rewrite parents_length in Hjb).
+  assert (Elo : forall i, (i < length ns)%nat -> ext_lo tm exts i = fst (nth i tm (0, 0))).
+  { intros i Hi. unfold ext_lo, exts. destruct (leaf_exts env ns L i Hi) as [_ <-]. lia. }
+  assert (Ehi : forall i, (i < length ns)%nat -> ext_hi tm exts i = snd (nth i tm (0, 0))).
+  { intros i Hi. unfold ext_hi, exts. destruct (leaf_exts env ns L i Hi) as [-> _]. simpl. fold tm. lia. }
+  assert (Dj : fst (nth j tm (0, 0)) <= snd (nth j tm (0, 0))).
+  { destruct (nth_error ns j) as [n|] eqn:En; [|apply nth_error_None in En; lia].
+    unfold tm. rewrite node_times_eq, (times_end None _ j _ _ (node_hs_nth env ns j n En)).
+    pose proof (nth_error_In _ _ En) as Hin. specialize (L n Hin). destruct (n_op n) as [l | r sub] eqn:Eo; [|discriminate].
+    specialize (D n l Hin Eo). unfold dur_of. simpl. lia. }
+  rewrite (extent_span ps tm exts j Nps Hjb) by (rewrite Elo, Ehi by exact Hjl; lia).
+  assert (Len : length tm = length ns) by apply node_times_length.
+  assert (E1 : zmin_list 0 (map (ext_lo tm exts) (bfs ps)) = zmin_list 0 (map fst tm)).
+  { rewrite (zmin_list_perm 0 _ _ (Permutation_map (ext_lo tm exts) P)).
+    rewrite <- (map_nth_seq tm (0, 0)) at 2. rewrite map_map, Len. f_equal. apply map_ext_in.
+    intros i Hi. apply in_seq in Hi. apply Elo. lia. }
+  assert (E2 : zmax_list 0 (map (ext_hi tm exts) (bfs ps)) = zmax_list 0 (map snd tm)).
+  { rewrite (zmax_list_perm 0 _ _ (Permutation_map (ext_hi tm exts) P)).
+    rewrite <- (map_nth_seq tm (0, 0)) at 2. rewrite map_map, Len. f_equal. apply map_ext_in.
+    intros i Hi. apply in_seq in Hi. apply Ehi. lia. }
+  rewrite E1, E2. lia.
+Qed.
+
+(* ------------------------------------------------------------------ C04 through nesting *)
+(* what the span theorem needs of a (nested) operation: non-negative leaf durations; every (sub-)graph non-empty, a forest with
+   backward links whose roots are the un-related nodes (Core/BfsWf.wf_nodes gives these three); blocks carry no JOINED_END link *)
+Inductive span_wf (env : denv) : op -> Prop :=
+| span_wf_leaf l : 0 <= resolve env (l_dur l) -> span_wf env (OLeaf l)
+| span_wf_comp r ns :
+    ns <> [] -> wf_parents (parents ns) -> wf_node_links ns ->
+    (forall n, In n ns -> n_parent n = None -> n_link n = LNone) ->
+    (forall n, In n ns -> is_comp (n_op n) = true -> block_link_ok (n_link n)) ->
+    Forall (fun n => span_wf env (n_op n)) ns -> span_wf env (OComp r ns).
+
+Lemma span_wf_links_op env o : span_wf env o -> wf_links_op o.
+Proof.
+  induction o as [l | r ns IH] using op_nodes_ind; intros W; [constructor|].
+  inversion W as [|? ? _ _ WL _ _ WD]; subst. constructor; [exact WL|].
+  rewrite Forall_forall in *. intros n Hn. apply IH; [exact Hn | apply WD; exact Hn].
+Qed.
+
+Lemma span_wf_sign env o : span_wf env o -> fst (ext_of env o) <= 0 <= snd (ext_of env o).
+Proof. intros W. apply ext_of_sign. intros l ->. now inversion W. Qed.
+
+Lemma nth_exts env ns i n : nth_error ns i = Some n -> nth i (map (fun n => ext_of env (n_op n)) ns) (0, 0) = ext_of env (n_op n).
+Proof.
+  intros En. assert (Hi : (i < length ns)%nat) by (apply nth_error_Some; congruence).
+  rewrite (nth_indep _ (0, 0) (ext_of env (n_op n))) by (now rewrite map_length).
+  rewrite (map_nth (fun n => ext_of env (n_op n)) ns n i). now rewrite (nth_error_nth _ _ n En).
+Qed.
+
+Lemma listing_node_nth env ns i n (c' : ctx) (tm : list (Z * Z)) (se : Z * Z) : nth_error ns i = Some n ->
+  nth i (map (fun n => listing_op env (n_op n)) ns) (fun _ _ => []) (sub_ctx c' tm (nth i (map n_link ns) LNone)) se
+  = listing_op env (n_op n) (sub_ctx c' tm (n_link n)) se.
+Proof.
+  intros En. assert (Hl : (i < length ns)%nat) by (apply nth_error_Some; congruence).
+  rewrite (nth_indep _ (fun _ _ => []) (listing_op env (n_op n))) by (rewrite map_length; exact Hl).
+  rewrite (map_nth (fun n => listing_op env (n_op n)) ns n i).
+  rewrite (nth_indep (map n_link ns) LNone (n_link n)) by (rewrite map_length; exact Hl).
+  rewrite (map_nth n_link ns n i). now rewrite (nth_error_nth _ _ n En).
+Qed.
+
+Lemma map_start_eshift T L : map e_start (map (eshift T) L) = map (fun x => x + T) (map e_start L).
+Proof. rewrite !map_map. reflexivity. Qed.
+Lemma map_end_eshift T L : map e_end (map (eshift T) L) = map (fun x => x + T) (map e_end L).
+Proof. rewrite !map_map. reflexivity. Qed.
+
+(* a root node of a well-formed graph starts at the origin of the stand-alone frame *)
+Lemma root_start env ns j n : wf_node_links ns -> nth_error ns j = Some n -> n_link n = LNone ->
+  fst (nth j (node_times env None ns) (0, 0)) = 0.
+Proof. intros W En El. rewrite (node_times_start env None ns j n W En), El. reflexivity. Qed.
+
+Lemma first_node_root ns : ns <> [] -> wf_parents (parents ns) -> In 0%nat (depth1 (parents ns)).
+Proof.
+  intros N W. unfold depth1. apply children_spec. destruct ns as [|n0 ns]; [congruence|]. simpl.
+  destruct (n_parent n0) as [p|] eqn:E; [|reflexivity]. specialize (W 0%nat p). simpl in W. rewrite E in W.
+  specialize (W eq_refl). lia.
+Qed.
+
+Lemma depth1_node ns j : In j (depth1 (parents ns)) -> exists n, nth_error ns j = Some n /\ n_parent n = None.
+Proof.
+  unfold depth1. intros H. apply children_spec in H. rewrite parents_nth_error in H.
+  destruct (nth_error ns j) as [n|]; simpl in H; [|discriminate]. exists n. split; [reflexivity | now inversion H].
+Qed.
+
+(* the stand-alone listing of an operation spans exactly its inner extent *)
+Definition span_claim (env : denv) (o : op) : Prop :=
+  let L := listing_op env o None (0, dur_of env o) in
+  L <> [] /\ zmin_list 0 (map e_start L) = fst (ext_of env o) /\ zmax_list 0 (map e_end L) = snd (ext_of env o).
+
+Theorem standalone_span env o : span_wf env o -> span_claim env o.
+Proof.
+  induction o as [l | r ns IH] using op_nodes_ind; intros W.
+  - unfold span_claim, dur_of. simpl. split; [congruence|]. split; [reflexivity | lia].
+  - inversion W as [|? ? N WP WL WR WB WD]; subst. unfold span_claim.
+    set (tm := node_times env None ns). set (exts := map (fun n => ext_of env (n_op n)) ns). set (ps := parents ns).
+    rewrite Forall_forall in IH, WD.
+    assert (Nps : ps <> []) by (unfold ps, parents; apply map_neq_nil; exact N).
+    pose proof (first_node_root ns N WP) as H0. fold ps in H0.
+    assert (N1 : depth1 ps <> []) by (intros E; rewrite E in H0; destruct H0).
+    (* the reference instant is the origin, and a root contains it *)
+    destruct (rel0_of_spec ps tm N1) as (j & Hj & Ej). pose proof (depth1_in_bfs ps j Hj) as Hjb.
+    destruct (depth1_node ns j Hj) as (nj & Enj & Pnj). pose proof (nth_error_In _ _ Enj) as Inj.
+    assert (R0 : rel0_of ps tm = 0) by (rewrite Ej; apply (root_start env ns j nj WL Enj (WR nj Inj Pnj))).
+    assert (Cj : ext_lo tm exts j <= rel0_of ps tm <= ext_hi tm exts j).
+    { unfold ext_lo, ext_hi, exts. rewrite (nth_exts env ns j nj Enj). rewrite <- Ej.
+      pose proof (span_wf_sign env (n_op nj) (WD nj Inj)). lia. }
+    rewrite ext_of_unfold. fold tm exts ps. rewrite (extent_span ps tm exts j Nps Hjb Cj), R0. simpl fst. simpl snd.
+    rewrite listing_op_unfold. fold tm ps.
+    (* every listed node spans its own extent, shifted to its start *)
+    assert (K : forall i, In i (bfs ps) ->
+              let Li := nth i (map (fun n => listing_op env (n_op n)) ns) (fun _ _ => [])
+                          (sub_ctx None tm (nth i (map n_link ns) LNone)) (nth i tm (0, 0)) in
+              Li <> [] /\ zmin_list 0 (map e_start Li) = ext_lo tm exts i /\ zmax_list 0 (map e_end Li) = ext_hi tm exts i).
+    { intros i Hi. apply bfs_lt_length in Hi. unfold ps in Hi. rewrite parents_length in Hi.
+      destruct (nth_error ns i) as [n|] eqn:En; [|apply nth_error_None in En; lia].
+      pose proof (nth_error_In _ _ En) as Hin. cbv zeta. rewrite (listing_node_nth env ns i n None tm _ En).
+      unfold ext_lo, ext_hi, exts. rewrite (nth_exts env ns i n En).
+      destruct (n_op n) as [l | r' sub] eqn:Eo.
+      - simpl. split; [congruence|]. split; [lia|]. unfold tm.
+        rewrite node_times_eq, (times_end None _ i _ _ (node_hs_nth env ns i n En)), Eo. unfold dur_of. simpl. lia.
+      - assert (Wsub : span_wf env (OComp r' sub)) by (rewrite <- Eo; apply WD; exact Hin).
+        assert (Bn : block_link_ok (n_link n)) by (apply WB; [exact Hin | now rewrite Eo]).
+        pose proof (listing_block_shift env None ns i n r' sub (0, dur_of env (OComp r' sub)) WL I En Eo
+                      (span_wf_links_op env _ Wsub) Bn) as Sh. cbv zeta in Sh. fold tm in Sh. rewrite Sh.
+        assert (Cl : span_claim env (OComp r' sub)) by (rewrite <- Eo; apply IH; [exact Hin | rewrite Eo; exact Wsub]).
+        destruct Cl as (C1 & C2 & C3).
+        split; [intros E; apply map_eq_nil in E; exact (C1 E)|].
+        rewrite map_start_eshift, map_end_eshift.
+        rewrite zmin_list_shift by (apply map_neq_nil; exact C1). rewrite zmax_list_shift by (apply map_neq_nil; exact C1).
+        rewrite C2, C3. lia. }
+    assert (Nb : bfs ps <> []) by (intros E; rewrite E in Hjb; destruct Hjb).
+    split; [|split].
+    + apply (flat_map_neq_nil _ _ j Hjb). exact (proj1 (K j Hjb)).
+    + rewrite (zmin_flat_map _ e_start (ext_lo tm exts) (bfs ps) Nb); [lia|].
+      intros i Hi. destruct (K i Hi) as (K1 & K2 & _). split; assumption.
+    + rewrite (zmax_flat_map _ e_end (ext_hi tm exts) (bfs ps) Nb); [lia|].
+      intros i Hi. destruct (K i Hi) as (K1 & _ & K3). split; assumption.
+Qed.
+
+(* the duration of a (sub-)circuit = latest end - earliest start over everything it lists, in every plain context *)
+Theorem nested_span env r ns c se : span_wf env (OComp r ns) -> ctx_plain c ->
+  let L := listing_op env (OComp r ns) c se in
+  L <> [] /\ dur_of env (OComp r ns) = zmax_list 0 (map e_end L) - zmin_list 0 (map e_start L).
+Proof.
+  intros W P L. destruct (standalone_span env _ W) as (C1 & C2 & C3).
+  unfold L. rewrite (listing_shift_comp env r ns c se (0, dur_of env (OComp r ns)) (span_wf_links_op env _ W) P).
+  split; [intros E; apply map_eq_nil in E; exact (C1 E)|].
+  rewrite map_start_eshift, map_end_eshift.
+  rewrite zmin_list_shift by (apply map_neq_nil; exact C1). rewrite zmax_list_shift by (apply map_neq_nil; exact C1).
+  rewrite C2, C3. unfold dur_of. destruct (ext_of env (OComp r ns)). simpl. lia.
+Qed.
+
+(* ------------------------------------------------------------------ C04: followers of a block *)
+Theorem followers env c ns p q pn qn : wf_node_links ns -> ctx_plain c ->
+  nth_error ns p = Some pn -> nth_error ns q = Some qn -> n_link qn = LRel RelationType_FOLLOWED_BY p ->
+  span_wf env (n_op pn) -> block_link_ok (n_link pn) -> fst (ext_of env (n_op pn)) = 0 ->
+  let tm := node_times env c ns in
+  fst (nth q tm (0, 0)) = fst (nth p tm (0, 0)) + dur_of env (n_op pn) /\
+  forall e, In e (listing_op env (n_op pn) (sub_ctx c tm (n_link pn)) (nth p tm (0, 0))) -> e_end e <= fst (nth q tm (0, 0)).
+Proof.
+  intros WL P Ep Eq Lq Wp Bp Z0 tm.
+  assert (Sq : fst (nth q tm (0, 0)) = snd (nth p tm (0, 0))).
+  { unfold tm. rewrite (node_times_start env c ns q qn WL Eq), Lq. simpl.
+    destruct (nth p (node_times env c ns) (0, 0)); reflexivity. }
+  assert (Ee : snd (nth p tm (0, 0)) = fst (nth p tm (0, 0)) + dur_of env (n_op pn)).
+  { unfold tm. rewrite node_times_eq. apply (times_end c _ p _ _ (node_hs_nth env ns p pn Ep)). }
+  split; [lia|]. intros e He. rewrite Sq.
+  destruct (n_op pn) as [l | r sub] eqn:Eo.
+  - simpl in He. destruct He as [<- | []]. simpl. lia.
+  - pose proof (listing_block_shift env c ns p pn r sub (0, dur_of env (OComp r sub)) WL P Ep Eo
+                  (span_wf_links_op env _ Wp) Bp) as Sh. cbv zeta in Sh. fold tm in Sh. rewrite Sh in He.
+    apply in_map_iff in He as (e0 & <- & He0). destruct (standalone_span env _ Wp) as (C1 & C2 & C3).
+    destruct (zmax_list_spec 0 (map e_end (listing_op env (OComp r sub) None (0, dur_of env (OComp r sub))))
+                (map_neq_nil _ _ C1)) as [_ Mx].
+    specialize (Mx _ (in_map e_end _ _ He0)). rewrite C3 in Mx. rewrite Ee. unfold dur_of.
+    destruct (ext_of env (OComp r sub)) as [lo hi]. simpl in *. lia.
+Qed.
